@@ -6,3 +6,23 @@ RUNTIME_SRCS = [RT + "source.c", RT + "sink.c", RT + "filter.c", RT + "channel.c
 ENV_COARSE = ["env/plat_seq.c", "env/plat_coarse.c", "env/logger_stub.c", "env/devstr_stub.c", "lib/mem_loops.c"]
 def cflags(VERIF):
     return ["-include", VERIF + "/lib/typed_mem.h"]
+COMP = "acquire-core-libs/src/acquire-device-properties/device/props/components.c"
+ENV_UNIT = ["env/plat_seq.c", "env/logger_stub.c", "env/devstr_stub.c", "lib/mem_loops.c"]
+def source_unit(H, VERIF, scn, nmax, ring, envmax=8, timeout=1500, solver="cadical", tag=""):
+    names = {0: "plain", 1: "abort", 2: "camfault", 3: "sinkdied"}
+    return H("source_%s_N%d_K%d%s" % (names[scn], nmax, ring, tag), "harness/runtime/source_unit.c",
+             repo=[RT + "channel.c", HAL + "camera.c", HAL + "driver.c", COMP], env=ENV_UNIT,
+             defines=["MODE=1", "SCN=%d" % scn, "NMAX=%d" % nmax, "RING_FRAMES=%d" % ring, "ENV_MAX=%d" % envmax],
+             cflags=cflags(VERIF), unwind=max(nmax + 3, 5), unwindset={"verif_memset_b.0": ring * 104 + 16, "verif_on_wait.0": envmax + 1},
+             solver=solver, timeout=timeout, mem_gb=24,
+             what="real video_source_thread + channel + HAL camera vs. environment readers (scenario: %s), boundary scheduling" % names[scn],
+             bounds=dict(frames="1..%d" % nmax, ring_frames=ring, env_steps=envmax, readers="checker + optional lazy reader"))
+def sink_unit(H, VERIF, scn, nmax, ring, polls=3, envmax=10, timeout=1500, solver="cadical", tag=""):
+    names = {0: "plain", 1: "stofault", 2: "abort"}
+    return H("sink_%s_N%d_K%d%s" % (names[scn], nmax, ring, tag), "harness/runtime/sink_unit.c",
+             repo=[RT + "channel.c", RT + "vfslice.c", RT + "throttler.c", HAL + "storage.c", HAL + "driver.c", COMP], env=ENV_UNIT,
+             defines=["SCN=%d" % scn, "NMAX=%d" % nmax, "RING_FRAMES=%d" % ring, "POLL_MAX=%d" % polls, "ENV_MAX=%d" % envmax],
+             cflags=cflags(VERIF), unwind=max(nmax + 4, polls + 2, 6), unwindset={"verif_memset_b.0": ring * 104 + 16},
+             solver=solver, timeout=timeout, mem_gb=24,
+             what="real video_sink_thread + vfslice + channel + HAL storage vs. an environment writer committing frames at arbitrary boundaries (scenario: %s)" % names[scn],
+             bounds=dict(frames="1..%d" % nmax, ring_frames=ring, polls=polls, env_steps=envmax, write_delay="0 or >0 with arbitrary clock"))
